@@ -4,6 +4,7 @@ import XmppModel.Lemmas.NegotiateReady
 import XmppModel.Lemmas.NegotiateOnce
 import XmppModel.Lemmas.NegotiateAdv
 import XmppModel.Lemmas.NegotiateReach
+import XmppModel.Generated.C01
 /-!
 # C01 — features are negotiated only when allowed, in order, at most once
 
@@ -19,6 +20,62 @@ namespace XmppModel.Props.C01
 open XmppModel XmppModel.Negotiate
 
 variable {C : List Feature} {O : Oracle} {st0 : St} {script : List Peer} {picks : List FName}
+
+/-! ### tie to the source: regenerated facts -/
+
+/-- the `SessionState` bits of session.go are the model's bits -/
+theorem C01_gen_bits : Generated.C01.stateBits =
+    some [("Secure", bSecure.toNat), ("Authn", bAuthn.toNat), ("Ready", bReady.toNat),
+          ("Received", bReceived.toNat), ("S2S", bS2S.toNat)] := by decide
+
+set_option maxRecDepth 8192 in
+/-- the mask test of the real code, evaluated on all 512 triples (state, necessary, prohibited)
+over the bits Secure, Authn, S2S through a one-feature receiver, is the model's `eligible` -/
+theorem C01_gen_mask_test : ∃ t, Generated.C01.maskTable = some t ∧
+    ∀ row ∈ t, eligible (BitVec.ofNat 8 row.1)
+      ⟨0, ⟨2, 1⟩, BitVec.ofNat 8 row.2.1, BitVec.ofNat 8 row.2.2.1, true⟩ = row.2.2.2 :=
+  ⟨_, rfl, by decide⟩
+
+/-- … and `eligible` only looks at the bits the two masks name, so the table extends to every
+state: bits outside `necessary ||| prohibited` never matter -/
+theorem C01_eligible_local (st : St) (f : Feature) :
+    eligible st f = eligible (st &&& (f.nec ||| f.proh)) f := by
+  unfold eligible
+  congr 1
+  · congr 1
+    apply BitVec.eq_of_getLsbD_eq
+    intro i _
+    simp only [BitVec.getLsbD_and, BitVec.getLsbD_or]
+    cases st.getLsbD i <;> cases f.nec.getLsbD i <;> simp
+  · congr 1
+    apply BitVec.eq_of_getLsbD_eq
+    intro i _
+    simp only [BitVec.getLsbD_and, BitVec.getLsbD_or]
+    cases st.getLsbD i <;> cases f.proh.getLsbD i <;> simp
+
+/-- masks and negotiability of the built-in features (read from the feature values the
+library constructs) -/
+theorem C01_gen_builtin : Generated.C01.builtin =
+    some [("starttls", 0, bSecure.toNat, true), ("sasl", bSecure.toNat, bAuthn.toNat, true),
+          ("bind", bAuthn.toNat, bReady.toNat, true), ("bidi", bSecure.toNat, bAuthn.toNat, true)] := by
+  decide
+
+/-- consequence for the built-in order: a feature with the masks of SASL only ever runs on a
+secured, not yet authenticated stream; one with the masks of resource binding only on an
+authenticated stream -/
+theorem C01_builtin_order {c : Conf} (h : Reach C O st0 script picks c)
+    {f : Feature} {st : St} {req forced srv : Bool} {r : NegRes}
+    (he : Ev.neg f st req forced srv r ∈ c.tr) :
+    (f.nec = bSecure → f.proh = bAuthn → has st bSecure = true ∧ st &&& bAuthn = 0) ∧
+    (f.nec = bAuthn → has st bAuthn = true) := by
+  have hp := ((invA_reach h).good _ he).1
+  unfold eligible at hp
+  simp only [Bool.and_eq_true, beq_iff_eq] at hp
+  constructor
+  · intro h1 h2; rw [h1, h2] at hp
+    exact ⟨by unfold has; simp [hp.1], hp.2⟩
+  · intro h1; rw [h1] at hp
+    unfold has; simp [hp.1]
 
 /-- **prerequisites**: whenever a feature's `Negotiate` runs — selected from the list or by
 the unconditional STARTTLS attempt, on either side — every necessary bit is set and no
